@@ -13,6 +13,7 @@ import (
 	"time"
 
 	"github.com/KevoDB/kevo/pkg/verifhook"
+	"github.com/KevoDB/kevo/pkg/wal"
 
 	"verif/internal/core"
 	"verif/internal/kv"
@@ -395,4 +396,112 @@ func c06RotationRace(c *core.Ctx, res *core.Result) {
 	}
 	defer e2.Close()
 	judge("after a restart", e2, "failed_write_recovered")
+}
+
+// c08BatchVsRotation: a batch is parked inside WAL.AppendBatch after its records were written and before the
+// log's sequence counter is advanced; a background flush then rotates the log, handing the counter over to
+// the next log (it has to wait for the batch); the batch is released; the next write goes to the new log.
+// It must be stamped above the batch.
+func c08BatchVsRotation(c *core.Ctx, res *core.Result) {
+	r := c.Rand
+	cfg := kv.Cfg{MemTableSize: 1024, MaxMemTables: 4, SyncMode: []int{0, 1}[r.Intn(2)], SyncBytes: 1 << 20, CompactSecs: 3600}
+	dir := filepath.Join(c.Dir, "db")
+	eng, err := kv.Open(dir, cfg)
+	if err != nil {
+		res.Violate("open_error", err.Error(), nil)
+		return
+	}
+	var armed, flushParked, fParked, mAtRot, wantWriter atomic.Bool
+	parkFlush, parkF := make(chan struct{}), make(chan struct{})
+	var once1, once2 sync.Once
+	defer func() {
+		armed.Store(false)
+		once1.Do(func() { close(parkFlush) })
+		once2.Do(func() { close(parkF) })
+		verifhook.Set(nil)
+		eng.Close()
+	}()
+	verifhook.Set(func(site string) {
+		if !armed.Load() {
+			return
+		}
+		switch site {
+		case "storage.flush.begin":
+			if flushParked.CompareAndSwap(false, true) {
+				<-parkFlush
+			}
+		case "wal.batch.after_write":
+			if wantWriter.Load() && fParked.CompareAndSwap(false, true) {
+				<-parkF
+			}
+		case "storage.rotate.after_newwal":
+			mAtRot.Store(true)
+		}
+	})
+	armed.Store(true)
+	waitFor := func(b *atomic.Bool) bool {
+		for i := 0; i < 5000 && !b.Load(); i++ {
+			time.Sleep(time.Millisecond)
+		}
+		return b.Load()
+	}
+	for i := 0; i < 40 && !flushParked.Load(); i++ {
+		eng.Put([]byte(fmt.Sprintf("k%02d", i%5)), []byte(fmt.Sprintf("c%d/base%d|%s", c.Idx, i, strings.Repeat("x", 100))))
+		time.Sleep(time.Millisecond)
+	}
+	if !waitFor(&flushParked) {
+		res.Inconclusive = "no background flush started"
+		return
+	}
+	batchVal := fmt.Sprintf("c%d/batch", c.Idx)
+	nb := r.Range(1, 4)
+	var ents []*wal.Entry
+	for i := 0; i < nb; i++ {
+		ents = append(ents, &wal.Entry{Type: wal.OpTypePut, Key: []byte(fmt.Sprintf("b%d", i)), Value: []byte(batchVal)})
+	}
+	wantWriter.Store(true)
+	fdone := make(chan error, 1)
+	go func() { fdone <- eng.ApplyBatch(ents) }()
+	if !waitFor(&fParked) {
+		res.Inconclusive = "the batch never reached the point between its log write and the counter update"
+		return
+	}
+	once1.Do(func() { close(parkFlush) })
+	waitFor(&mAtRot)
+	time.Sleep(4 * time.Millisecond) // the rotation is handing the counter over (it has to wait for the batch)
+	once2.Do(func() { close(parkF) })
+	berr := <-fdone
+	armed.Store(false)
+	verifhook.Set(nil)
+	eng.FlushImMemTables()
+	nextVal := fmt.Sprintf("c%d/next", c.Idx)
+	perr := eng.Put([]byte("z"), []byte(nextVal))
+	res.Count("batch_vs_rotation_scenarios", 1)
+	res.Sig = core.Sig("batchrot", cfg.SyncMode, nb)
+	res.Nontrivial = true
+	if berr != nil || perr != nil {
+		return // a refused write has no sequence number to compare
+	}
+	eng.Close()
+	entsLog, err := readLogSeq(filepath.Join(dir, "wal"))
+	if err != nil {
+		res.Violate("log_unreadable", err.Error(), nil)
+		return
+	}
+	var bseq, nseq uint64
+	for _, e := range entsLog {
+		switch e.val {
+		case batchVal:
+			bseq = e.seq
+		case nextVal:
+			nseq = e.seq
+		}
+	}
+	if bseq == 0 || nseq == 0 {
+		res.Violate("acknowledged_write_not_in_log", fmt.Sprintf("config %s: batch stamped %d, next put stamped %d (0 = not found in the log)", cfg, bseq, nseq), map[string]string{"mode": "batch_vs_rotation"})
+		return
+	}
+	if nseq <= bseq {
+		res.Violate("sequence_not_increasing", fmt.Sprintf("config %s: a batch of %d was inside WAL.AppendBatch (records written, counter not yet advanced) while a background flush rotated the log; the batch was acknowledged with sequence %d, the put issued after it (in the new log) is stamped %d", cfg, nb, bseq, nseq), map[string]string{"mode": "batch_vs_rotation"})
+	}
 }
